@@ -128,8 +128,9 @@ class State:
 class Solver:
     """z3 first; cvc5 (CLI) on unknown.  One query per obligation, all axioms as hypotheses."""
 
-    def __init__(self, timeout_ms=10000):
+    def __init__(self, timeout_ms=15000):
         self.timeout_ms = timeout_ms
+        self.retry_alone = os.environ.get("VERIF_NO_RETRY") is None
         self.stats = {"z3": 0.0, "cvc5": 0.0, "queries": 0}
 
     def check(self, hyps, goal=None, timeout_ms=None, fallback=True):
@@ -151,6 +152,17 @@ class Solver:
             return "sat", s.model(), "z3", dt, ""
         if not fallback:
             return "unknown", None, "z3", dt, s.reason_unknown()
+        if self.retry_alone:
+            # verdicts must not flip when all cores are busy: one more attempt with a doubled budget
+            s.set("timeout", 2 * (timeout_ms or self.timeout_ms))
+            t1 = time.time()
+            r = s.check()
+            dt += time.time() - t1
+            self.stats["z3"] += time.time() - t1
+            if r == z3.unsat:
+                return "unsat", None, "z3", dt, ""
+            if r == z3.sat:
+                return "sat", s.model(), "z3", dt, ""
         # unknown: try cvc5
         t1 = time.time()
         res = self._cvc5(s.to_smt2())
@@ -367,6 +379,8 @@ class Executor:
                 return False
             if z3.is_rational_value(v):
                 return float(v.as_fraction())
+            if z3.is_string_value(v):
+                return v.as_string()
             return str(v)
         if isinstance(val, (list, tuple)):
             return [self.concretise(model, v) for v in val]
@@ -374,6 +388,8 @@ class Executor:
             return {k: self.concretise(model, v) for k, v in val.items()}
         if isinstance(val, (int, str, bool, float)) or val is None:
             return val
+        if hasattr(val, "fields") and hasattr(val, "kind"):
+            return {"__record__": val.kind, **{k: self.concretise(model, v) for k, v in val.fields.items()}}
         return repr(val)
 
     def feasible(self, state, cond=None):
